@@ -20,7 +20,7 @@ which ONE dimension crosses each of the thresholds 8 / 16 / 32 / 64 / 128 / 256 
   pars       N consecutive parallel blocks with unequal short branches
   subs       N subcircuit blocks (counts default / 0 / 1 / small / let-valued), parallel blocks inside
   loops      N loops outside any parallel block, parallel blocks in their bodies
-  header     N lets / N qubit aliases / an alias chain of N (<= 130) / N macros / a chain of N (<= 130) macros each calling
+  header     N lets / N qubit aliases / an alias chain of N (<= 100) / N macros / a chain of N (<= 130) macros each calling
              the previous one / N usepulses statements, and a small body with a parallel block that uses some of them
   names      identifiers of N characters (gate, let, register, alias, macro, macro parameter)
   idents     a small program every name of which has an unusual but legal spelling (see NAME STYLES)
@@ -60,6 +60,7 @@ import argparse
 import json
 import os
 import random
+import signal
 import sys
 import time
 from collections import Counter
@@ -84,7 +85,7 @@ def _imports():
 THRESHOLDS = [8, 16, 32, 64, 128, 256]
 NAMED_SIZES = [20, 33, 34, 40, 49, 65, 100, 129, 200]
 ROUTES = ["text", "text", "sexp", "builder", "obj"]
-DIMS = ["branch", "branch", "branch_composite", "width", "seqlen", "depth", "pars", "subs", "loops", "header", "names",
+DIMS = ["branch", "branch", "branch_composite", "width", "seqlen", "depth", "pars", "subs", "loops", "header", "header", "names",
         "idents", "rej_step", "rej_branch", "rej_depth"]
 CHEAP_1000 = ["branch", "width", "seqlen", "pars", "rej_step", "rej_branch"]
 MAX = {"depth": 257, "rej_depth": 257, "branch_composite": 258, "idents": 64}
@@ -394,7 +395,7 @@ def dim_header(cx, n, feat):
         cx.maps = [[f"a{i}", "qubit", "r", ["i", i % sz]] for i in range(n)]
         uses = [["g", "u", [["a", f"a{i}"]]] for i in sorted(rng.sample(range(n), min(n, 6)))]
     elif what == "mapchain":
-        n = min(n, 130)
+        n = min(n, 100)  # resolving an alias chain costs cubic time in the library (3.6 s at 129)
         cx.reg, cx.regsize = ["r", ["i", 2]], 2
         cx.maps = [[f"a{i}", "whole", "r" if i == 0 else f"a{i - 1}"] for i in range(n)]
         uses = [["g", "u", [["q", f"a{i}", ["i", i % 2]]]] for i in sorted({0, n // 2, n - 1})]
@@ -621,10 +622,124 @@ def bucket(n):
     return ">=1000"
 
 
+def guarded_short(fn, *a):
+    """The pass under an alarm of at most 20 s (it needs < 0.2 s on the biggest program generated here; a regression
+    that duplicates statements at every nesting level needs exponential time and memory)."""
+    old = signal.signal(signal.SIGALRM, E._alarm)
+    signal.alarm(int(min(E.T.limit(), 20)))
+    try:
+        return fn(*a)
+    except E._Timeout:
+        E.T.saw_hang()
+        raise
+    finally:
+        signal.alarm(0)
+        signal.signal(signal.SIGALRM, old)
+
+
+def count_gate_statements(block, cap):
+    """number of gate statements in a statement tree (objects, iteratively); gives up beyond `cap`"""
+    n = 0
+    stack = [block]
+    while stack:
+        x = stack.pop()
+        if isinstance(x, E.LoopStatement):
+            stack.append(x.statements)
+        elif isinstance(x, E.BlockStatement):
+            stack.extend(x.statements)
+        else:
+            n += 1
+            if n > cap:
+                return n
+    return n
+
+
 def evaluate(case):
-    """c19_edge's evaluation with this stream's oracle names"""
-    res, info = E.evaluate(case)
-    return {k.replace("C19e_", "C19s_"): v for k, v in res.items()}, info
+    """-> (results {oracle: (ok, detail)}, info): the evaluation of c19_edge (same reference, on canonical dumps) with a
+    guard against results that are far bigger than the input (a regression that duplicates gates at scale can return
+    hundreds of thousands of statements; those are reported from a plain count instead of being dumped and diffed)."""
+    res, info = {}, {}
+    prog = case["prog"]
+    dump, _short = E.dump, E._short
+    try:
+        c = E.guarded(E.circuit_of_case, case)
+        din = dump.circuit(c)
+    except E._Timeout:
+        info["frontend"] = "timeout in the front end"
+        return res, info
+    except Exception as e:
+        info["frontend"] = f"front end refused the generated program: {type(e).__name__}: {e}"
+        return res, info
+    want = [E.shape(s) for s in prog["body"]]
+    got = [E.shape_of_dump(k) for k in din["body"]["b"]]
+    if want != got:
+        info["frontend"] = f"front end built another tree: {_short(got)}"
+        return res, info
+    expect_reject = any(E.loop_in_par(s) for s in prog["body"])
+    assert expect_reject == (case["expect"] == "reject"), "case inconsistent"
+    n_in = count_gate_statements(c.body, 10**9)
+    ecls = None
+    try:
+        new = guarded_short(E.normalize, c)
+        exc = None
+    except E._Timeout:
+        exc, new = "timeout", None
+    except BaseException as e:  # noqa: the class is what is judged
+        if isinstance(e, (KeyboardInterrupt, SystemExit)):
+            raise
+        exc, ecls, new = f"{type(e).__name__}: {e}", e, None
+    info["outcome"] = "ok" if exc is None else ("timeout" if exc == "timeout" else type(ecls).__name__)
+    if expect_reject:
+        if exc is None:
+            res["C19s_reject"] = (False, "a loop sits inside a parallel block but a circuit was returned")
+        elif exc == "timeout" or not isinstance(ecls, E.JaqalError):
+            res["C19s_reject"] = (False, f"a loop sits inside a parallel block; expected JaqalError, got {_short(exc, 300)}")
+        else:
+            res["C19s_reject"] = (True, "")
+        return res, info
+    if exc is not None:
+        res["C19s_accept"] = (False, f"no loop inside a parallel block, yet the call raised {_short(exc, 300)}")
+        return res, info
+    res["C19s_accept"] = (True, "")
+    try:
+        cap = 2 * n_in + 64
+        n_out = count_gate_statements(new.body, cap)
+    except Exception as e:
+        res["C19s_flat"] = (False, f"result body cannot be walked: {type(e).__name__}: {e}")
+        return res, info
+    if n_out > cap:
+        res["C19s_gates"] = (False, f"the input has {n_in} gate statements, the result has more than {cap}"
+                                    " (not dumped; gate statements are duplicated)")
+        return res, info
+    try:
+        dout = dump.circuit(new)
+    except Exception as e:
+        res["C19s_flat"] = (False, f"result is not a dumpable circuit: {type(e).__name__}: {e}")
+        return res, info
+    info["changed"] = dout["body"] != din["body"]
+    gi, si = E.schedule(din["body"])
+    go, so = E.schedule(dout["body"])
+    info["nonempty"] = bool(gi)
+    ci, co = Counter(g for g, _, _ in gi), Counter(g for g, _, _ in go)
+    lost, dup = ci - co, co - ci
+    res["C19s_gates"] = (not lost and not dup,
+                         f"input {len(gi)} gate statements, result {len(go)}; lost {_short(sorted(lost.elements()), 300)}"
+                         f" extra {_short(sorted(dup.elements()), 300)}")
+    wi, wo = Counter(gi), Counter(go)
+    if wi == wo:
+        res["C19s_schedule"] = (True, "")
+    else:
+        a = sorted((json.loads(g)["g"], w, s) for (g, w, s) in (wi - wo).elements())
+        b = sorted((json.loads(g)["g"], w, s) for (g, w, s) in (wo - wi).elements())
+        res["C19s_schedule"] = (False, f"(gate, [start, loops], subcircuit#) only in the input: {_short(a, 400)}; only in the result: {_short(b, 400)}")
+    res["C19s_subcircuits"] = (si == so, f"(count, [start, loops], duration, parallel) of the subcircuit blocks: in {_short(si, 400)} out {_short(so, 400)}")
+    b = dout["body"]
+    top_ok = ("b" in b) and not b["par"] and not b["sub"] and E.cval(b["it"]) == 1 and "c" not in b["it"]
+    res["C19s_flat"] = (bool(top_ok and E.flat_items(b["b"])), f"result body {_short(b, 800)}")
+    hi, ho = E.header_of(din), E.header_of(dout)
+    bad = [k for k in hi if hi[k] != ho.get(k)]
+    res["C19s_header"] = (not bad, "; ".join(f"{k}: in {_short(hi[k], 250)} out {_short(ho.get(k), 250)}" for k in bad))
+    return res, info
 
 
 def slim(case, gen):
@@ -640,9 +755,18 @@ def run(seed: int, n: int, driver: str = DEFAULT_DRIVER, thorough: bool = False)
     dist = Counter()
     nontrivial = 0
     samples, fe_examples = [], []
+    hung = {}  # dim -> smallest size on which the pass timed out
+    n_hung = 0
     for gen in gen_specs(seed, n, thorough):
+        if n_hung >= 3 and gen["size"] >= hung.get(gen["dim"], 10**9):
+            # the tree hangs at this scale (already reported three times): do not spend 20 s on every further case
+            dist["skipped_after_3_timeouts"] += 1
+            continue
         case, feat = build_case(gen)
         res, info = evaluate(case)
+        if info.get("outcome") == "timeout":
+            n_hung += 1
+            hung[gen["dim"]] = min(hung.get(gen["dim"], 10**9), gen["size"])
         if "frontend" in info:
             dist["frontend_problem"] += 1
             dist[f"frontend_problem:{gen['route']}:{gen['dim']}"] += 1
@@ -693,7 +817,7 @@ def replay(case: dict, driver: str = DEFAULT_DRIVER) -> dict:
     if "frontend" in info:
         return {"oracle_ok": None, "detail": info["frontend"]}
     bad = [f"{k}: {d}" for k, (ok, d) in res.items() if not ok]
-    return {"oracle_ok": not bad, "detail": "; ".join(bad) or "all oracles hold", "impl": info.get("outcome")}
+    return {"oracle_ok": not bad, "detail": "; ".join(bad) or "all oracles hold", "outcome": info.get("outcome")}
 
 
 def main():
